@@ -23,6 +23,24 @@ import (
 
 func init() {
 	families["C01"] = append(families["C01"], historyFamily)
+	// a package-level variable that evaluation reads and writes makes the value of an expression
+	// depend on what was evaluated before (C08: "the value of an expression is the same in every
+	// place it can be written"; C03: output determined by templates and context alone): the
+	// allow-list obligations are claimed there as well
+	for _, p := range []string{"C08", "C03"} {
+		pp := p
+		families[pp] = append(families[pp], func(w *World, _ string) ([]*Obligation, []string) {
+			obls, _ := historyFamily(w, "C01")
+			var out []*Obligation
+			for _, o := range obls {
+				if o.Kind == "global" {
+					o.Props = []string{pp}
+					out = append(out, o)
+				}
+			}
+			return out, []string{fmt.Sprintf("package-level variables on the render/parse path checked against the allow-list: %d", len(out))}
+		})
+	}
 }
 
 // reachableFrom: in-package functions reachable from the named entry points.
